@@ -80,6 +80,10 @@ def cases(ctx):
                     continue
                 inner = (bytes([o2]) + b"\x53\x68") if o2 else b""
                 yield {"k": "script", "hex": (b"\x51" + bytes([o1]) + inner + body + b"\x68").hex(), "tag": "structural", "may_reject": True}
+    # conditionals nested 1000 .. 2500 deep (well below the depth at which the recorded native-stack finding starts)
+    for di, dpt in enumerate((1000, 1024, 1025, 1500, 2500)):
+        if di % N == S % 5 and (S < 5 or t):
+            yield {"k": "script", "hex": (b"\x63" * dpt + b"\x51" + b"\x68" * dpt).hex(), "tag": "grammar"}
     # single minimal pushes of log-spaced lengths
     for li, L in enumerate(sorted(set([75, 76, 255, 256, 520, 521] + [v for k_ in range(9, 18) for v in (2**k_ - 1, 2**k_, 2**k_ + 1, 3 * 2 ** (k_ - 1))] + [100000]))):
         if li % N != S:
@@ -104,6 +108,10 @@ def cases(ctx):
         esc_bad = r.choice(["OP_\\u0044UP", "\\u004fP_DUP", "OP_DUP\\n", "\"OP_DUP\"", "'OP_1'", "OP%5FDUP", "OP&#95;DUP", "OP_D\\x55P", "\\x51", "5\\u0031", "\\u0035\\u0031"])
         j3 = r.randrange(len(good) + 1)
         yield {"k": "text", "text": " ".join(good[:j3] + [esc_bad] + good[j3:]), "expect": "reject", "invisible": True}
+        alias_bad = [a_ for a_ in ("OP_FALSE", "OP_TRUE", "OP_CLTV", "OP_CSV", "OP_CHECKLOCKTIMEVERIFY", "OP_CHECKSEQUENCEVERIFY", "OP_NOP2", "OP_NOP3", "FALSE", "TRUE", "OP_ZERO", "OP_ONE", "OP_PUSHDATA", "OP_DATA") if a_ not in asm.NAME2OP and a_ not in asm.ALIASES]
+        if alias_bad:
+            j4 = r.randrange(len(good) + 1)
+            yield {"k": "text", "text": " ".join(good[:j4] + [r.choice(alias_bad)] + good[j4:]), "expect": "reject", "invisible": True}
         inv = r.choice(["\ufeff", "\u200b", "\u2060", "\u00ad", "\x00", "\u200d"])
         g0 = r.choice(good)
         bad2 = r.choice([inv, inv + g0, g0 + inv, g0[: len(g0) // 2] + inv + g0[len(g0) // 2 :]])
